@@ -528,6 +528,20 @@ KNOWN = {
 }
 
 
+def as_unchanged(a, w):
+    """Does writer `w` still produce on this very input what the model of the unchanged code produces (native: the
+    exact text; lxml: the tree of the model's SAX calls)?  A listed finding describes the unchanged code: a failure
+    on an input where the implementation no longer behaves like it is a violation of another kind."""
+    from framework import behaves_as_modelled
+    from props import c03 as P
+
+    op = {"native": "writer.native", "lxml": "writer.lxml"}[w]
+    args = {"events": a["events"], "ns_map": a["ns_map"], "cfg": dict(a["cfg"])}
+    if w == "lxml":
+        args["cfg"].pop("indent", None)  # as check_events runs it
+    return behaves_as_modelled(next(c for c in P.CORRS if c.op == op), args)
+
+
 def covered_events(a, msg):
     m = re.match(r"writer=(\w+) kind=(\S+)", msg)
     if not m:
@@ -535,6 +549,9 @@ def covered_events(a, msg):
     w, kind = m.group(1), m.group(2)
     for fid, (pred, where) in KNOWN.items():
         if kind in where.get(w, ()) and pred(a):
+            # (both writers: check_events stops at the first writer that fails, the other one must not hide behind it)
+            if as_unchanged(a, "native") is False or as_unchanged(a, "lxml") is False:
+                return None  # inside the finding's region, but not what the unchanged code writes there
             return fid
     return None
 
